@@ -2267,19 +2267,65 @@ def _step_with_tolerance(num, x):
     """is `num` the step number floor(x), x = t / dt, computed with a guard against rounding: floor(x * c) with 1 <= c <= 1 + 1e-6,
     floor(x + c) with 0 <= c <= 1/2, or x rounded to the nearest integer?  (x = k + O(1e-12) for a time accumulated as t += dt:
     all of these are k.)  -> description or None"""
+    g = _step_guard(num, x)
+    return g[0] if g and g[3] >= STEP_HORIZON else None
+
+
+# Floating-point model of the step number.  A time accumulated as t += dt by n additions is t_n = n dt (1 + theta) with
+# |theta| <= (n - 1) u, u = 2**-53 (a-priori bound of recursive summation, Higham, Accuracy and Stability, ch. 4), so the quotient
+# x = fl(t_n / dt) satisfies |x - n| <= n**2 u.  A guard keeps floor(guarded x) == n as long as the guard covers this error from
+# below and error + guard stay under 1 from above.  The bound is attained up to a modest factor: inside one binade every addition
+# of the same dt rounds by the same amount (dt mod ulp), so the error of x drifts like rho n**2 u with rho fixed by the bits of dt.
+_U = sp.Rational(1, 2 ** 53)
+STEP_HORIZON = 10 ** 6      # declared horizon of the rule: the slot must be right for runs of up to 10**6 steps
+
+
+def _step_guard(num, x):
+    """-> (description, kind, size, N) for num = floor(x) [kind none], floor(x (1 + r)) [relative], floor(x + c) / round(x)
+    [additive]; N = number of steps for which the a-priori bound guarantees the step number; None when num is none of these"""
     if not isinstance(num, sp.Basic):
         return None
+    a = None
     if num.func == sp.floor and len(num.args) == 1:
         a = num.args[0]
-        r = sp.simplify(a / x)
-        if r.is_number and r.is_real and 1 <= r <= 1 + sp.Rational(1, 10 ** 6):
-            return f"floor(t / dt * {sp.nsimplify(r)})"
-        d = sp.simplify(a - x)
-        if d.is_number and d.is_real and 0 <= d <= sp.Rational(1, 2):
-            return f"floor(t / dt + {d})"
-    if str(num.func) == "round" and len(num.args) == 1 and sp.simplify(num.args[0] - x) == 0:
-        return "round(t / dt)"
+    elif str(num.func) == "round" and len(num.args) == 1 and sp.simplify(num.args[0] - x) == 0:
+        return ("round(t / dt)", "additive", sp.Rational(1, 2), int(sp.floor(sp.sqrt(sp.Rational(1, 2) / _U))))
+    if a is None:
+        return None
+    if sp.simplify(a - x) == 0:
+        return ("floor(t / dt)", "none", sp.Integer(0), 2)
+    r = sp.simplify(a / x)
+    if r.is_number and r.is_real and r > 1 and r < 2:
+        r = sp.nsimplify(r - 1)
+        n_low = r / _U
+        n_up = sp.Min(1 / (2 * r), sp.sqrt(1 / (2 * _U)))
+        return (f"floor(t / dt * (1 + {sp.N(r, 3)}))", "relative", r, int(sp.floor(sp.Min(n_low, n_up))))
+    d = sp.simplify(a - x)
+    if d.is_number and d.is_real and 0 < d <= sp.Rational(1, 2):
+        n_low = sp.sqrt(d / _U)
+        n_up = sp.sqrt((1 - d) / _U)
+        return (f"floor(t / dt + {sp.N(d, 3)})", "additive", d, int(sp.floor(sp.Min(n_low, n_up))))
     return None
+
+
+def _time_is_accumulated(chk, tname_hint=None):
+    """does the driver hand collect a time that it advances by `t += step` in the loop around the call?  -> (True, where) /
+    (None, why not established)"""
+    try:
+        tree = chk.mod(U.DRIVER).tree
+    except Exception as ex:             # the driver is not part of every tree
+        return None, f"driver not read ({ex})"
+    calls = [c for c in ast.walk(tree) if isinstance(c, ast.Call) and isinstance(c.func, ast.Attribute) and c.func.attr == "collect"
+             and len(c.args) == 3 and isinstance(c.args[2], ast.Name)]
+    for lp in ast.walk(tree):
+        if isinstance(lp, (ast.While, ast.For)):
+            inside = [c for c in calls if any(c is y for y in ast.walk(lp))]
+            for c in inside:
+                for s_ in ast.walk(lp):
+                    if isinstance(s_, ast.AugAssign) and isinstance(s_.op, ast.Add) and isinstance(s_.target, ast.Name) and \
+                            s_.target.id == c.args[2].id:
+                        return True, f"{U.DRIVER}:{s_.lineno} `{src(s_)}` in the loop around `{src(c)[:50]}`"
+    return None, "no loop of the driver that advances the time by `t += step` around a call of collect was found"
 
 
 def slot_index_integral(chk, col, init, rows, F, Q):
@@ -2467,6 +2513,17 @@ def collector(chk):
                 hooks[a_] = DT_
             elif p_ == "saveStep":
                 hooks[a_] = S_
+        # attributes bound ONCE in the whole class, in the constructor, to a numeric literal stand for that number (`self._tol = 1e-9`)
+        if cls_c is not None:
+            stores_ = {}
+            for x in ast.walk(cls_c):
+                if isinstance(x, ast.Attribute) and isinstance(x.ctx, (ast.Store, ast.Del)) and src(x.value) == "self":
+                    stores_[src(x)] = stores_.get(src(x), 0) + 1
+            for n in init.body:
+                if isinstance(n, ast.Assign) and len(n.targets) == 1 and isinstance(n.targets[0], ast.Attribute) and \
+                        src(n.targets[0].value) == "self" and isinstance(n.value, ast.Constant) and \
+                        type(n.value.value) in (int, float) and stores_.get(src(n.targets[0])) == 1 and src(n.targets[0]) not in hooks:
+                    hooks[src(n.targets[0])] = sp.Rational(repr(n.value.value))
         n_ = NpSym(env={"int": lambda z: z, "floor": sp.floor}, hooks=hooks)
         from ..core import names_in
         # attributes that collect itself binds once, in its own block, stand for the value bound there (`self._step = int(t // dt)`
@@ -2543,13 +2600,42 @@ def collector(chk):
             if isinstance(got, sp.Basic) and got.func == MOD and len(got.args) == 2:
                 num, mod_ = got.args
                 d_ = sp.simplify(mod_ - cols_)
-                guarded = _step_with_tolerance(num, T_ / DT_)
-                if sp.simplify(num - step) == 0 and d_ == 0:
-                    oks_, whys_ = True, "slot = (t // dt) mod (number of slots allocated): consecutive steps fill consecutive slots and wrap with the table"
-                elif guarded and d_ == 0:
-                    oks_, whys_ = True, (f"slot = ({guarded}) mod (number of slots allocated): the step number t / dt rounded down, with a guard "
-                                         "against a quotient that lies just below the integer it stands for (t accumulated as t += dt); "
-                                         "consecutive steps fill consecutive slots and wrap with the table")
+                g_ = _step_guard(num, T_ / DT_)
+                if g_ and d_ == 0 and g_[3] >= STEP_HORIZON:
+                    oks_, whys_ = True, (f"slot = ({g_[0]}) mod (number of slots allocated): the step number t / dt rounded down, with a guard "
+                                         "against a quotient that lies just below the integer it stands for (t accumulated as t += dt: "
+                                         f"|t/dt - n| <= n^2 u after n steps); the guard covers this bound for {g_[3]:.1e} steps (horizon of the "
+                                         f"rule: {STEP_HORIZON:.0e}); consecutive steps fill consecutive slots and wrap with the table")
+                elif g_ and d_ == 0:
+                    desc_, kind_, size_, n_ok = g_
+                    # AUDIT: VIOLATED = (1) the step number IS floor of t/dt with the recognised guard (symbolic comparison; an attribute
+                    # that holds the tolerance is bound once in the class, to a literal); (2) the driver advances the time it hands
+                    # to collect by `t += step` in the loop around the call (checked in the driver), so the error of t/dt grows like
+                    # rho n^2 u, rho fixed by the bits of dt (same rounding at every addition inside a binade); (3) with rho >= 1/100
+                    # the error passes the guard within the declared horizon of the rule.  An overshooting relative guard
+                    # (n r >= 2 within the horizon) needs no assumption on the time.  Anything in between is UNDECIDED.
+                    if kind_ == "relative" and 2 / size_ < STEP_HORIZON:
+                        oks_, whys_ = False, (f"slot = ({desc_}) mod {mod_}: the relative tolerance adds n * {sp.N(size_, 3)} to the step number "
+                                              f"n: from step {int(2 / size_)} on it adds more than a whole step and the diagnostics land in the "
+                                              "slot of a later step")
+                    else:
+                        acc_, where_ = _time_is_accumulated(chk)
+                        fail_by = 100 * n_ok if kind_ == "relative" else 10 * max(n_ok, 1)
+                        what_ = {"none": "no guard at all", "additive": f"an ABSOLUTE tolerance of {sp.N(size_, 3)}",
+                                 "relative": f"a relative tolerance of {sp.N(size_, 3)}"}[kind_]
+                        model_ = ("the time is accumulated as t += dt, so after n steps t/dt lies up to n^2 u (u = 2^-53) below the integer n "
+                                  f"it stands for, an error that grows with the run; {what_} covers it for about {n_ok} steps only" +
+                                  (" (an additive constant does not scale with the accumulated error: a relative tolerance r covers r/u "
+                                   "steps, an additive c only sqrt(c/u))" if kind_ == "additive" else ""))
+                        if acc_ and fail_by < STEP_HORIZON:
+                            oks_, whys_ = False, (f"slot = ({desc_}) mod {mod_}: {model_}; {where_}.  Beyond that (well within the {STEP_HORIZON:.0e} "
+                                                  "steps this rule asks for) floor gives the previous step for step sizes that are not exact "
+                                                  "in binary: the diagnostics of a step overwrite the slot of the step before and their own "
+                                                  "slot keeps stale values" + (" (0.1 added 8 times is 0.7999999999999999: step 7)"
+                                                                               if kind_ == "none" else ""))
+                        else:
+                            whys_ = (f"slot = ({desc_}) mod {mod_}: {model_}; whether a run gets that far depends on tEnd / dt (run-time inputs)" +
+                                     ("" if acc_ else f"; {where_}") + ": not decided")
                 elif d_.is_number and d_ != 0:
                     oks_, whys_ = False, (f"the slot index `{src(e_)[:60]}` wraps modulo {mod_} but the table has {cols_} slots: " +
                                           ("slots past the end of the table are addressed" if d_ > 0 else
